@@ -1,7 +1,18 @@
 """Level texts for MANIFEST.json."""
-HOOK_COMMITS = []
+HOOK_COMMITS = ["645c65a"]
 NOT_APPLICABLE = {}
 LEVELS = {
+    "C18": {
+        "text": "Proof: C18_blocked — for all well-formed operation/route tables, all methods, all request paths (as the router sees them and "
+                "as the gate sees them, related by percent-decoding) and all iteration orders of the paths map: a request that the router "
+                "dispatches to a state-changing operation is not allowed by the gate when write operations are off; C18_tables_wellformed "
+                "discharges the hypothesis for the tables regenerated from the source on this run, C18_write_ops_pinned and "
+                "C18_setup_pinned pin which operations are state-changing and that the gate is installed before the handlers. "
+                "C18_deterministic, C18_readonly_reachable. The model of chi/kin-openapi matching is tied to the real router by httptest runs.",
+        "design_ref": "DESIGN.md §4 C18",
+        "note": "Trusted: Lean kernel; factx; correspondence harness; my model of chi, kin-openapi Find, regexp and URL decoding.",
+        "technique": "Lean 4 theorem generic in tables regenerated from the source (+ decide on the tables) + httptest differential runs",
+    },
     "C17": {
         "text": "Proof: C17_match_total and C17_alloc_bounded (for every valid definition and EVERY log — any topics, data, offset and length "
                 "words up to 2^256-1 — matching returns yes/no, no slice access leaves its bounds, buffers are bounded by the log size), "
